@@ -167,8 +167,9 @@ Step(s, c, DevStar) ==
            (* two-character operators over the extra class are not resolved *)
            Fz(Code(Item([s EXCEPT !.m = "code"]), c, DevStar))
       [] s.m = "tilde" ->
-           IF c \in {"a", "x"} THEN [s EXCEPT !.m = "code", !.at = "odd", !.lt = "prefix"]
-           ELSE Lose([s EXCEPT !.m = "code"])
+           (* ~@ is one prefix; otherwise the character after ~ starts the operand *)
+           IF c = "x" THEN [s EXCEPT !.m = "code", !.at = "odd", !.lt = "prefix"]
+           ELSE Code([s EXCEPT !.m = "code", !.lt = "prefix"], c, DevStar)
       [] OTHER -> Lose(s)
 
 (* run the automaton from state s over text[i..j] (a fold: TLC evaluates deep *)
